@@ -111,10 +111,27 @@ def evaluate(
       last_expr = code_block.body.pop()  # pytype: disable=attribute-error
       result_vars = [RESULT_KEY]
 
+      store_stmt = None
       if isinstance(last_expr, ast.Assign):
-        for name_node in last_expr.targets:
-          if isinstance(name_node, ast.Name):
-            result_vars.append(name_node.id)
+        if all(isinstance(t, ast.Name) for t in last_expr.targets):
+          result_vars.extend(t.id for t in last_expr.targets)
+        else:
+          # Subscript, attribute and unpacking targets cannot be bound through
+          # `global_vars`: the store is executed as a statement of its own,
+          # with the evaluated value.
+          store_stmt = ast.Module(
+              body=[
+                  ast.copy_location(
+                      ast.Assign(
+                          targets=last_expr.targets,
+                          value=ast.Name(id=RESULT_KEY, ctx=ast.Load()),
+                      ),
+                      last_expr,
+                  )
+              ],
+              type_ignores=[],
+          )
+          ast.fix_missing_locations(store_stmt)
 
       last_expr = ast.Expression(last_expr.value)  # pytype: disable=attribute-error
 
@@ -136,6 +153,9 @@ def evaluate(
         result = eval(  # pylint: disable=eval-used
             compile(last_expr, '', mode='eval'), global_vars
         )
+        if store_stmt is not None:
+          global_vars[RESULT_KEY] = result
+          exec(compile(store_stmt, '', mode='exec'), global_vars)  # pylint: disable=exec-used
       except Exception as e:
         raise errors.CodeError(code, e) from e
 
